@@ -181,7 +181,7 @@ def _mk(E):
 
 
 # ------------------------------------------------------------------ the three per-message runs
-def run_encode(E: EN.Engine, cls, msg: L.Message, mods, constrain: str = "typed"):
+def run_encode(E: EN.Engine, cls, msg: L.Message, mods, constrain: str = "typed", label: str = "encode"):
     """encode() on symbolic field values == reference layout, byte for byte.
     constrain='typed': bool/byte/enum in range (Python's own types enforce that), uint/int fields UNCONSTRAINED
     (any 128-bit integer: field containment for out-of-range values, C07)."""
@@ -191,17 +191,23 @@ def run_encode(E: EN.Engine, cls, msg: L.Message, mods, constrain: str = "typed"
     for name, term, r in leaves:
         if constrain == "all" or isinstance(r, (L.Bool, L.Byte, L.Enum)):
             E.assume(L.in_range(term, r))
-    E.cover("encode/requires")
+    E.cover(label + "/requires")
     inst = cls()
     set_values(inst, msg, v, mods)
-    out = inst.encode()
+    try:
+        out = inst.encode()
+    except (EN.StopPath, EN.Unsupported):
+        raise
+    except Exception as e:          # "neither direction raises": an exception out of the real code is a violation, not a checker error
+        E.oblige("%s/no-exception (%s: %s)" % (label, type(e).__name__, str(e)[:80]), z3.BoolVal(False), kind="no-exception")
+        raise EN.StopPath()
     n = L.nbytes(msg)
-    E.oblige("encode/length", z3.BoolVal(sym_len(out) == n and getattr(cls, "BYTES_LENGTH", None) == n))
+    E.oblige(label + "/length", z3.BoolVal(sym_len(out) == n and getattr(cls, "BYTES_LENGTH", None) == n))
     exp = L.bytes_of(L.enc(msg, v), n)
     got = list(out.v) if isinstance(out, CBytes) else list(out)
     for k in range(min(n, len(got))):
-        E.oblige("encode/byte[%d]" % k, z3.Extract(7, 0, lift(got[k])) == exp[k])
-        E.oblige("encode/byte-range[%d]" % k, z3.And(lift(got[k]) >= 0, lift(got[k]) <= 255), kind="byte-range")
+        E.oblige("%s/byte[%d]" % (label, k), z3.Extract(7, 0, lift(got[k])) == exp[k])
+        E.oblige("%s/byte-range[%d]" % (label, k), z3.And(lift(got[k]) >= 0, lift(got[k]) <= 255), kind="byte-range")
     return v, got
 
 
@@ -218,7 +224,13 @@ def run_decode(E: EN.Engine, cls, msg: L.Message, mods, sender: L.Message = None
     n = L.nbytes(src)
     buf = CBytes([wrap(z3.ZeroExt(W - 8, b)) for b in L.bytes_of(L.enc(src, v), n)])
     inst = cls()
-    inst.decode(buf)
+    try:
+        inst.decode(buf)
+    except (EN.StopPath, EN.Unsupported):
+        raise
+    except Exception as e:          # "neither direction raises"
+        E.oblige("%s/no-exception (%s: %s)" % (label, type(e).__name__, str(e)[:80]), z3.BoolVal(False), kind="no-exception")
+        raise EN.StopPath()
     E.oblige(label + "/buffer-untouched", z3.BoolVal(not buf.writes), kind="frame")
     own_n = L.nbytes(msg)
     if sender is None:
@@ -228,6 +240,15 @@ def run_decode(E: EN.Engine, cls, msg: L.Message, mods, sender: L.Message = None
     for (path, g, r), (_, w, _) in zip(L.leaves_of(msg, got), L.leaves_of(msg, want)):
         E.oblige("%s/field%s" % (label, path), lift(g) == w)
     return inst, v, buf
+
+
+def run_history(E: EN.Engine, cls, msg: L.Message, mods):
+    """one process, one loaded module, three calls in a row on three different objects: encode(a); encode(b) must still be the layout of
+    b alone, and decode(layout of c) must still give c - no call leaves anything behind that a later call reads (class-level or
+    module-level scratch state)"""
+    run_encode(E, cls, msg, mods, label="history/first-encode")
+    run_encode(E, cls, msg, mods, label="history/second-encode")
+    run_decode(E, cls, msg, mods, label="history/decode-after-encodes")
 
 
 def run_reencode(E: EN.Engine, inst, msg: L.Message, buf: CBytes):
